@@ -20,6 +20,14 @@ from vf import sym
 from vf.sym import HarnessError, Frac, is_z, is_sym, Z
 
 
+class NoIndex(object):
+  """sort indices of a symbolically sorted row: any use is a harness error"""
+
+  def __int__(self):
+    raise HarnessError('indices of a symbolic sort were used')
+  __index__ = __int__
+
+
 class VarRef(object):
   """A resource handle flowing through the graph."""
 
@@ -899,6 +907,17 @@ class Interp(object):
     idxs = np.empty(x.shape, dtype=object)
     for pos in np.ndindex(*x.shape[:-1]):
       row = [x[pos + (i,)] for i in range(n)]
+      if sym.ctx().memo.get('sort_network') and any(is_sym(a) for a in row):
+        # values by a compare-exchange network (exact: sorted values as min/max terms); indices are unusable
+        srt = list(row)
+        for i in range(n):
+          for j in range(n - 1 - i):
+            hi, lo = sym.s_max(srt[j], srt[j + 1]), sym.s_min(srt[j], srt[j + 1])
+            srt[j], srt[j + 1] = hi, lo
+        for r, val in enumerate(srt):
+          vals[pos + (r,)] = val
+          idxs[pos + (r,)] = NoIndex()
+        continue
       order = self.sort_desc(row)
       for r, i in enumerate(order):
         vals[pos + (r,)] = row[i]
